@@ -42,6 +42,7 @@ pub fn dispatch(id: &str, tier: Tier, seed: u64, extra: &[String]) -> i32 {
         "C14" => c14::run(&Ctx::new("C14", tier, seed)),
         "C15" => c15::run(&Ctx::new("C15", tier, seed)),
         "C15-child" => c15::child(seed),
+        "C15-starved" => c15::starved_child(seed),
         "C16" => c16::run(&Ctx::new("C16", tier, seed)),
         "C17" => c17::run(&Ctx::new("C17", tier, seed)),
         "C18" => c18::run(&Ctx::new("C18", tier, seed)),
